@@ -382,7 +382,28 @@ def replay (checkC07 : Bool) (input impl : Json) : R Eng := do
   e := e.noteDiff (decide (obs = want)) s!"poll schedule: model {want.length} polls, impl {obs.length}; first difference at {(want.zip obs).find? (fun p => p.1 != p.2)}"
   pure e
 
+/-- stress cases on the real `util.Cache` / coordinator: `ClearExpired` racing a `Set` of an
+    expired key.  Model side: `gc_two_phase_refines` — a write between scan and delete is
+    never lost — so the expected number of lost entries is 0. -/
+def raceReply (kind : String) (input impl : Json) : R Reply := do
+  let trials ← natF input "trials"
+  let lost ← natF impl "lost"
+  let ok := decide (lost = 0)
+  let msg := if kind == "cache-race" then
+      "cache: a fresh entry written during ClearExpired was deleted (scan/delete race)"
+    else "coordinator: a report accepted while the cache GC ran was forgotten (scan/delete race)"
+  pure { agree := ok, specModel := true, specImpl := ok,
+         diff := if ok then "" else s!"{kind}: model loses 0 of {trials}, impl lost {lost}",
+         fail := if ok then "" else msg,
+         nontrivial := decide (trials > 0), tags := [kind], key := kind }
+
+def isRace (input : Json) : Option String :=
+  match fieldD input "kind" .null with
+  | .str k => some k
+  | _ => none
+
 def handle (input impl : Json) : R Reply := do
+  if let some k := isRace input then return ← raceReply k input impl
   let e ← replay false input impl
   pure { agree := e.agree, specModel := e.specM, specImpl := e.specI, diff := e.diff, fail := e.fail,
          nontrivial := decide (e.nAcceptOk ≥ 1 ∧ e.nQueries ≥ 1 ∧ e.nProcessed ≥ 1),
